@@ -911,7 +911,7 @@ func (sp *StreamParser) ExecCmd(cb RdbObjExecutor) {
 		if sp.rtype >= RDBTypeStreamListPacks2 {
 			cgOffset = r.ReadLength64P() // offset
 			if util.VersionGE(sp.targetRedisVersion, "7", util.VersionMajor) {
-				xgcArgs = append(xgcArgs, "ENTRIESREAD", cgOffset)
+				xgcArgs = append(xgcArgs, "ENTRIESREAD", int64(cgOffset)) // signed: SCG_INVALID_ENTRIES_READ is -1, XGROUP CREATE parses a long long
 			}
 		} else {
 			if util.VersionGE(sp.targetRedisVersion, "7", util.VersionMajor) {
@@ -943,7 +943,7 @@ func (sp *StreamParser) ExecCmd(cb RdbObjExecutor) {
 					}
 					return uint64(SCG_INVALID_ENTRIES_READ)
 				}()
-				xgcArgs = append(xgcArgs, "ENTRIESREAD", cgOffset)
+				xgcArgs = append(xgcArgs, "ENTRIESREAD", int64(cgOffset)) // signed: SCG_INVALID_ENTRIES_READ is -1, XGROUP CREATE parses a long long
 			}
 		}
 
